@@ -170,6 +170,19 @@ template <class T> static void runLines (int far)
         Q  offLine = len (cross (r, d1));
         check<T> ("Line3.closestPointToLine", "parallel-on-line", offLine, scale + len (r), 16, in);
         Q trueDist = len (cross (w, d1));
+        bool sameDir = (l1.dir == l2.dir) || (l1.dir == -l2.dir);   // exactly parallel AS REPRESENTED
+        if (sameDir)
+        {
+            ++counts[std::string ("parallel_as_represented:") + tname<T> ()];
+            if (ok)
+            {
+                bool closest = qabs (len (toQ (c1) - toQ (c2)) - trueDist) <= (Q) 1e-3 * (1 + trueDist);
+                ++counts[std::string ("parallel_as_represented_reported_true:") + tname<T> () + (closest ? ":closest" : ":not-closest")];
+                ++evals;
+                flag ("LineAlgo.closestPoints", closest ? "exactly-parallel-reported-true" : "exactly-parallel-reported-true-not-closest", tname<T> (),
+                      "closestPoints returned true for lines whose stored directions are bitwise +-equal", in);
+            }
+        }
         if (ok)
         {
             ++counts[std::string ("parallel_closestPoints_reported_true:") + tname<T> ()];
